@@ -49,8 +49,24 @@ def chainOk (pre post : Obs) : Bool :=
   (!connected pre.blocks || connected post.blocks) &&
   (post.blocks.drop pre.blocks.length).all (·.valid)
 
+def agreeAt (pre : Obs) (F : File) (h : Nat) : Bool :=
+  (match F.blocks[h - F.bstart]?, pre.blocks[h]? with
+   | some a, some b => a.id == b.id
+   | _, _ => false) &&
+  (match F.filters[h - F.bstart]?, pre.filters[h]? with
+   | some a, some b => a == b
+   | _, _ => false)
+
+/-- sampled agreement with existing data: where the file overlaps the stores, its
+first and its last overlapping height carry the stores' own headers (a file that
+contradicts existing data there must be refused) -/
+def sampleOk (pre : Obs) (F : File) : Bool :=
+  let eff := min (pre.blocks.length - 1) (pre.filters.length - 1)
+  if F.bstart ≤ eff then agreeAt pre F F.bstart && agreeAt pre F (min eff (endHeight F)) else true
+
 /-- **success clause** -/
-def successOk (pre : Obs) (F : File) (post : Obs) : Bool := contentOk pre F post && chainOk pre post
+def successOk (pre : Obs) (F : File) (post : Obs) : Bool :=
+  contentOk pre F post && chainOk pre post && sampleOk pre F
 
 /-- **idempotence clause**: the second identical import succeeds and changes nothing -/
 def idempotentOk (post : Obs) (second : Bool) (post2 : Obs) : Bool := second && post2 == post
@@ -68,7 +84,10 @@ def failContentOk (pre : Obs) (F : File) (post : Obs) : Bool :=
   (decide (post.filters.length = pre.filters.length) || (metaOk F && decide (F.bstart ≤ pre.filters.length)))
 
 /-- **failure clause** (appended headers, if any, are valid and connected) -/
-def failureOk (pre : Obs) (F : File) (post : Obs) : Bool := failContentOk pre F post && chainOk pre post
+def failureOk (pre : Obs) (F : File) (post : Obs) : Bool :=
+  failContentOk pre F post && chainOk pre post &&
+  -- all or nothing per batch: stores that were level stay level
+  (pre.blocks.length != pre.filters.length || post.blocks.length == post.filters.length)
 
 /-- The recorded defect's shape (F7): the file's first header is above height 0
 and the import has something to append (the file reaches above the lower of the
